@@ -1,6 +1,6 @@
 """C10: discovered dependencies count exactly like declared implicit inputs (metamorphic pairs)."""
 import random
-import enginecheck as ec, engine
+import enginecheck as ec, engine, histmodel
 from props import engcommon
 LEVEL = 'proof'; TRUSTED = engcommon.TRUSTED_ENGINE; ASSUMPTIONS = engcommon.ASSUMPTIONS_ENGINE + ['compared from the first build on in which every discovered dependency had been reported by a successful run (recorded and valid)']
 def run(ctx):
@@ -102,3 +102,6 @@ def run(ctx):
                         'changed include sets) and schedules; per build: commands run, final files, ordering against generated recorded dependencies; non-trivial = a comparable build with recorded deps' % len(pairs),
                    samples=[{'pair': pairs[0][0].sid, 'manifest': pairs[0][0].g.manifest()[:300], 'declared': pairs[0][1].g.manifest()[:300]}],
                    distribution=dict(pairs=len(pairs)))
+    # the recorded-deps model (coq/Engine/HistDepsDefs.v, theorems of Properties_C10hist.v) run against the real engine: histories in
+    # fragment ABD (deps = gcc statements with hidden reads); the two listed findings have to show up identically on both sides
+    histmodel.hook(ctx, 'C10', deps=True, quick=300, thorough=3000, key='hist_model_recorded_deps')
